@@ -182,9 +182,8 @@ class Wrapped:
             shims.ALLCLOSE_HOOK[0] = hook
         orig_init = sysobj._sys_init
         self._orig_init = orig_init
-        tag = self.tag
-
         def sym_init(phase=""):
+            tag = self.tag() if callable(self.tag) else self.tag
             v0, i0, state = orig_init(phase)
             names = {idx: nm for nm, idx in sysobj._g.attrs["nodes"].items()}
             v = [0.0] * len(v0)
